@@ -87,6 +87,11 @@ func (r *Recomposer) registerComposer(rt reflect.Type, fun RecomposeFunc) (*comp
 		return nil, fmt.Errorf("only structs can be recomposed. %s is not a struct type", rt)
 	}
 	c := r.composers[full]
+	if c != nil && c.rtype != rt {
+		// Another type with the same name, anonymous types all have an
+		// empty name.
+		c = nil
+	}
 	if c == nil {
 		c = &composer{
 			fun:   fun,
@@ -95,6 +100,10 @@ func (r *Recomposer) registerComposer(rt reflect.Type, fun RecomposeFunc) (*comp
 			rtype: rt,
 		}
 		c.indexes = indexType(c.rtype)
+		if len(c.short) == 0 {
+			// An anonymous type can not be looked up by name.
+			return c, nil
+		}
 		r.composers[c.short] = c
 		r.composers[c.full] = c
 	} else {
@@ -121,6 +130,23 @@ func (r *Recomposer) registerComposer(rt reflect.Type, fun RecomposeFunc) (*comp
 		_, _ = r.registerComposer(ft, nil)
 	}
 	return c, nil
+}
+
+// composerFor returns the registered composer for the type or nil if there is
+// none. A composer registered for another type with the same name is not
+// returned.
+func (r *Recomposer) composerFor(rt reflect.Type) *composer {
+	if len(rt.Name()) == 0 {
+		return nil
+	}
+	c := r.composers[rt.PkgPath()+"/"+rt.Name()]
+	if c == nil {
+		c = r.composers[rt.Name()]
+	}
+	if c != nil && c.rtype != nil && c.rtype != rt {
+		c = nil
+	}
+	return c
 }
 
 func (r *Recomposer) registerAnyComposer(rt reflect.Type, fun RecomposeAnyFunc) (*composer, error) {
@@ -406,7 +432,7 @@ func (r *Recomposer) recomp(v any, rv reflect.Value) {
 	case reflect.Struct:
 		vm, ok := (v).(map[string]any)
 		if !ok {
-			if c := r.composers[rv.Type().Name()]; c != nil && c.any != nil {
+			if c := r.composerFor(rv.Type()); c != nil && c.any != nil {
 				if val, err := c.any(v); err == nil {
 					if val == nil {
 						break
@@ -444,7 +470,7 @@ func (r *Recomposer) recomp(v any, rv reflect.Value) {
 			return
 		}
 		var im map[string]reflect.StructField
-		if c := r.composers[rv.Type().Name()]; c != nil {
+		if c := r.composerFor(rv.Type()); c != nil {
 			if c.fun != nil {
 				if val, err := c.fun(vm); err == nil {
 					vv := reflect.ValueOf(val)
